@@ -2,8 +2,8 @@ use super::MetricTrait;
 use crate::base::TimePredicate;
 use crate::utils::curr_time_millis;
 use crate::{Error, Result};
-use std::sync::atomic::{AtomicU64, Ordering};
-use std::sync::{Arc, Mutex};
+use crate::vsync::atomic::{AtomicU64, Ordering};
+use crate::vsync::{Arc, Mutex};
 
 const DEFAULT_TIME: u64 = 0;
 
@@ -171,7 +171,7 @@ impl<T: MetricTrait> LeapArray<T> {
                     return Ok(Arc::clone(&self.array[idx]));
                 } else {
                     // during sleeping, other thread may have reset the bucket
-                    std::thread::yield_now();
+                    crate::vsync::yield_now();
                 }
             } else {
                 return Err(Error::msg("invalid time stamp, cannot find bucket"));
